@@ -34,6 +34,66 @@ Record case := { cid : Z; cin : input; cobs : observed }.
 
 Definition flag (code : Z) (ok : bool) : list Z := if ok then [] else [code].
 
+(* ---- reference oracles (any oracles satisfying Codec_OK / Text_OK / Csv_OK give the same results on
+   well-formed inputs, by the theorems; these are the ones the comparator computes with) ---- *)
+Definition ch_semi : ascii := ";"%char.
+Definition ch_comma : ascii := ","%char.
+Definition ftok_text (f : ftok) : list ascii :=
+  match f with
+  | FFin neg m e => "f"%char :: (if neg then ch_minus else ch_plus) :: show_int m ++ ch_comma :: show_int e
+  | FNaN => ["n"%char]
+  | FInf neg => [if neg then "q"%char else "p"%char]
+  end.
+Definition scalar_text (x : scalar) : list ascii :=
+  match x with
+  | SBool b => ["b"%char; if b then "1"%char else "0"%char]
+  | SInt z => "i"%char :: show_int z
+  | SFlt f => ftok_text f
+  end ++ [ch_semi].
+(* split at every [sep]; cur is the current token, reversed *)
+Fixpoint split_at (sep : ascii) (l cur : list ascii) : list (list ascii) :=
+  match l with
+  | [] => [rev cur]
+  | c :: r => if Ascii.eqb c sep then rev cur :: split_at sep r [] else split_at sep r (c :: cur)
+  end.
+Definition read_int (l : list ascii) : option Z :=
+  match l with
+  | c :: r => if Ascii.eqb c ch_minus then (if isdigit r then Some (- digits_val r) else None)
+              else if isdigit l then Some (digits_val l) else None
+  | [] => None
+  end.
+Definition scalar_of_text (l : list ascii) : option scalar :=
+  match l with
+  | t :: r =>
+      match code t with
+      | 98 => match r with [d] => Some (SBool (code d =? 49)) | _ => None end
+      | 105 => option_map SInt (read_int r)
+      | 110 => Some (SFlt FNaN)
+      | 112 => Some (SFlt (FInf false))
+      | 113 => Some (SFlt (FInf true))
+      | 102 => match r with
+               | sg :: r' => match split_at ch_comma r' [] with
+                             | [a; b] => match read_int a, read_int b with
+                                         | Some m, Some e => Some (SFlt (FFin (Ascii.eqb sg ch_minus) m e))
+                                         | _, _ => None
+                                         end
+                             | _ => None
+                             end
+               | [] => None
+               end
+      | _ => None
+      end
+  | [] => None
+  end.
+Definition ref_frombuffer (dt : dtype) (data : list ascii) : option (list scalar) :=
+  match rev (split_at ch_semi data []) with
+  | [] :: toks => mapM scalar_of_text (rev toks)          (* the text ends with a separator *)
+  | _ => None
+  end.
+Definition ref_codec : codec :=
+  mkcodec (fun _ el => List.concat (map scalar_text el)) ref_frombuffer l2s (fun s => Some (s2l s)).
+Definition ref_text : textlayer jtree := mktext jtree (fun t => t) Some (fun _ => false).
+
 (* strings as lists of byte codes, for case files (tabs, quotes, UTF-8) *)
 Definition sl (l : list Z) : string := l2s (map chr l).
 
@@ -56,18 +116,18 @@ Definition check (c : case) : list Z :=
       if negb (wf_top_b d) then [3] else
       match o with
       | ObsJson out =>
-          flag 1 (match load_json (save_json d) with Some m => top_eqb m out | None => false end) ++
+          flag 1 (match load_json_text ref_codec ref_text (save_json_text ref_codec ref_text d) with Some m => top_eqb m out | None => false end) ++
           flag 21 (json_keys_b d out) ++ flag 22 (json_vals_b d out)
       | _ => [1; 21; 22]
       end
   | InTsv dl first excl n rows, o =>
       if negb (forallb row_ok rows && forallb (fun r => forallb (fun kv => cell_text_ok (snd kv)) r) rows &&
-               (0 <=? n) && (n <=? 12) &&
+               (1 <=? n) && (n <=? 12) &&
                (2 <=? zlen (fields_of first excl rows)) && forallb is_ident (fields_of first excl rows))
       then [3] else
       match o with
       | ObsRows out =>
-          flag 1 (match read_tsv (write_tsv dl first excl n rows) with
+          flag 1 (match read_tsv ref_csv (write_tsv ref_csv dl first excl n rows) with
                   | Some m => list_eqb orow_match m out
                   | None => false
                   end) ++
@@ -80,7 +140,7 @@ Definition check (c : case) : list Z :=
       then [3] else
       match o with
       | ObsSimple of out =>
-          flag 1 (match read_simple (write_simple dl field data) with
+          flag 1 (match read_simple ref_csv (write_simple ref_csv dl field data) with
                   | Some (mf, m) => String.eqb mf of && simple_match m out
                   | None => false
                   end) ++
